@@ -195,7 +195,7 @@ def cases(tier, seed):
         keep = all_edits
     for name, src, want in keep:
         yield ("edit", name, src, want)
-    for i in range(80 if quick else 4000):
+    for i in range(300 if quick else 4000):
         yield ("accept", seed, i)
     corpus = gen_mutate.corpus()
     for p, t in corpus:
